@@ -149,3 +149,10 @@ pub fn catch<R>(f: impl FnOnce() -> R) -> Result<R, String> {
 pub fn bitlen(v: u128) -> u32 {
     128 - v.leading_zeros()
 }
+
+/// Debug name of an enum value without its payload (`CollectLoose(17)` -> `CollectLoose`): class
+/// labels must not multiply by parameter values.
+pub fn variant_name<T: std::fmt::Debug>(v: &T) -> String {
+    let s = format!("{:?}", v);
+    s.split(|c: char| c == '(' || c == ' ' || c == '{').next().unwrap_or("").to_string()
+}
